@@ -199,9 +199,16 @@ int reb_particle_check_testparticles(struct reb_simulation* const r){
 
 int reb_get_rootbox_for_particle(const struct reb_simulation* const r, struct reb_particle pt){
 	if (r->root_size==-1) return 0;
-	int i = ((int)floor((pt.x + r->boxsize.x/2.)/r->root_size)+r->N_root_x)%r->N_root_x;
-	int j = ((int)floor((pt.y + r->boxsize.y/2.)/r->root_size)+r->N_root_y)%r->N_root_y;
-	int k = ((int)floor((pt.z + r->boxsize.z/2.)/r->root_size)+r->N_root_z)%r->N_root_z;
+	int i = (int)floor((pt.x + r->boxsize.x/2.)/r->root_size);
+	int j = (int)floor((pt.y + r->boxsize.y/2.)/r->root_size);
+	int k = (int)floor((pt.z + r->boxsize.z/2.)/r->root_size);
+	// A particle exactly on the upper box border (accepted by reb_boundary_particle_is_in_box) belongs to the last root box.
+	if (i==r->N_root_x) i = r->N_root_x-1;
+	if (j==r->N_root_y) j = r->N_root_y-1;
+	if (k==r->N_root_z) k = r->N_root_z-1;
+	i = (i+r->N_root_x)%r->N_root_x;
+	j = (j+r->N_root_y)%r->N_root_y;
+	k = (k+r->N_root_z)%r->N_root_z;
 	int index = (k*r->N_root_y+j)*r->N_root_x+i;
 	return index;
 }
